@@ -254,7 +254,7 @@ def cases(draw, kinds=("single", "batch", "group", "mock", "multi", "notemplate"
     else:
         rots = {"kind": "none"}
     rmax = (min(shape) - 1) / 2 - max(ms) - 0.5
-    T = draw(st.integers(2, 3)) if kind == "multi" else 1
+    T = draw(st.sampled_from([1, 2, 2, 3, 3])) if kind == "multi" else 1
     blobsets = [draw(planted.blob_offsets(rmax, variant=v)) for v in range(T)]
     if kind == "notemplate":
         n = 5
